@@ -57,6 +57,20 @@ func dischargeAll(ctx *Ctx, obls []*Obligation, timeoutS, par int, dump string) 
 				out[i] = Discharged{o, SolveCanary(script, 2)}
 				return
 			}
+			// first try with the assumptions near the goal only (sound: fewer assumptions), then with all
+			if len(o.PC) >= 40 {
+				small := o.RenderDepth(3)
+				if dump != "" {
+					os.WriteFile(filepath.Join(dump, sanitize(o.Name)+".near.smt2"), []byte(small), 0o644)
+				}
+				if len(small) < len(script)*3/4 {
+					if r := Solve(small, minInt(timeoutS, 5), nil); r.Status == "unsat" {
+						r.Solver += "(near)"
+						out[i] = Discharged{o, r}
+						return
+					}
+				}
+			}
 			out[i] = Discharged{o, Solve(script, timeoutS, nil)}
 		}(i, o)
 	}
@@ -194,4 +208,11 @@ func retryUndecided(out []Discharged, timeoutS, max int) {
 		}(i)
 	}
 	wg.Wait()
+}
+
+func minInt(a, b int) int {
+	if a < b {
+		return a
+	}
+	return b
 }
